@@ -170,8 +170,10 @@ def fam_ctl(rng, pid):
             ops += [{'op': 'PauseAndWait'}, {'op': 'NumProcessing'}, {'op': 'Resume'}]
         elif k < 0.45:
             ops += [{'op': 'Pause'}, {'op': 'Resume'}]
-        elif k < 0.6:
+        elif k < 0.52:
             ops += [{'op': 'Stop'}, {'op': 'NumProcessing'}, {'op': 'Restart'}]
+        elif k < 0.6:
+            ops += [{'op': 'Pause'}, {'op': rng.choice(['Stop', 'WaitAndStop'])}, {'op': 'NumProcessing'}, {'op': 'Restart'}]
         elif k < 0.7:
             ops += [{'op': 'Restart'}]
         elif k < 0.8:
@@ -228,7 +230,7 @@ def fam_stop2(rng, pid):
         elif r < 0.65:
             ops = [{'op': 'WaitAndStop'}]
         elif r < 0.8:
-            ops = [{'op': 'PauseAndWait'}, {'op': 'Stop'}]
+            ops = [{'op': rng.choice(['PauseAndWait', 'Pause'])}, {'op': 'Stop'}]
         elif r < 0.9:
             ops = [{'op': 'Pause'}, {'op': 'Resume'}]
         else:
